@@ -15,7 +15,7 @@ import (
 // ---------- loops ----------
 
 type loopInfo struct {
-	heads []*ssa.BasicBlock                       // in block-index order (== source order)
+	heads []*ssa.BasicBlock                            // in block-index order (== source order)
 	body  map[*ssa.BasicBlock]map[*ssa.BasicBlock]bool // head -> blocks of the natural loop
 }
 
@@ -66,10 +66,10 @@ func (v *Verifier) loops(fn *ssa.Function) *loopInfo {
 // ---------- effects (what a function may write / allocate), transitive ----------
 
 type effects struct {
-	heaps    map[string]bool // heap keys possibly written or allocated in
-	all      bool            // unknown: any heap
-	allocs   bool
-	globals  bool
+	heaps   map[string]bool // heap keys possibly written or allocated in
+	all     bool            // unknown: any heap
+	allocs  bool
+	globals bool
 }
 
 func (v *Verifier) effectsOf(fn *ssa.Function, visiting map[*ssa.Function]bool) *effects {
